@@ -543,8 +543,41 @@ def r13_8(ck, F):
                   task.loc(he[0]))
 
 
+PANICKING_MUTATORS = ("std::vec::Vec::insert", "std::vec::Vec::remove", "std::vec::Vec::swap_remove", "std::vec::Vec::split_off",
+                      "std::vec::Vec::drain", "std::collections::VecDeque::insert", "std::collections::VecDeque::split_off",
+                      "std::collections::VecDeque::drain", "std::collections::VecDeque::swap")
+
+
+def r13_9(ck, F):
+    ck.rule("R13.9", "no event for an operation that did not happen: where an observable's method applies a std operation that "
+            "panics on an out-of-range argument (Vec::insert / remove / swap_remove, VecDeque::insert, ...), the event is sent "
+            "only after that operation returned (the mutator call dominates send_event)",
+            "remove(index >= len) panics after its Remove(index) event went out and the collection lives on (panic caught, "
+            "non-poisoning lock): mirrors fail with InvalidIndex or apply a removal that never happened", floor=3)
+    n = 0
+    for adt, (file, inner, ev, mirror_inner, sub, mirrored) in OBSERVABLES.items():
+        if inner is None:
+            continue
+        for dp, (root, bodies) in sorted(_groups(F, file).items()):
+            f = F.fns.get(root.path) or F.fns.get(mir.strip_generics(root.path))
+            owner = (f or {}).get("impl_adt") or ""
+            if owner != adt:
+                continue
+            for b in bodies:
+                muts = [(bb, c) for bb, c in std_mutators(b, {inner}) if c in PANICKING_MUTATORS]
+                sends = [bb for bb, t in b.calls("robs::send_event")]
+                for mb, c in muts:
+                    for sb in sends:
+                        n += 1
+                        ck.expect(b.dominates(mb, sb), f"{mir.strip_generics(b.path)}#{c.split('::')[-1]}-before-event",
+                                  f"{c.split('::')[-1]} returns before the event is sent",
+                                  f"{mir.strip_generics(b.path)} sends its event at {b.loc(sb)} before {c} (which panics on an "
+                                  f"out-of-range argument) has been applied at {b.loc(mb)}", b.loc(sb))
+    ck.expect(n >= 3, "panicking-mutators#sites", f"{n} (operation, event) pairs", f"only {n} pairs found", None)
+
+
 def run(ck, F):
-    for r in (r13_1, r13_2, r13_3, r13_3b, r13_4, r13_5, r13_6, r13_7, r13_8):
+    for r in (r13_1, r13_2, r13_3, r13_3b, r13_4, r13_5, r13_6, r13_7, r13_8, r13_9):
         ck.run_rule(r)
 
 
